@@ -2,6 +2,7 @@ package hist
 
 import (
 	"fmt"
+	"sync/atomic"
 	"time"
 
 	"google.golang.org/grpc/codes"
@@ -28,6 +29,21 @@ func (w *World) StreamSession(name string, maxMsgs int64, ackFrac, nackFrac floa
 	defer seam.C.SetTick(tick)
 	s, live := w.Subs[name]
 	fs := rig.NewFakeStream(w.Ctx)
+	// virtual time does not move during a session (nobody sleeps), so no lease can
+	// run out in it: a message may be sent, and once more after its nack - a
+	// stream that keeps re-sending one ack id is handing it out inside its lease,
+	// and would keep this session from ever becoming quiescent
+	var respin atomic.Int64
+	resent := map[string]int{}
+	fs.OnSend = func(b rig.SentBatch) {
+		for _, rm := range b.Msgs {
+			resent[rm.AckId]++
+			if resent[rm.AckId] == 6 {
+				respin.Store(int64(resent[rm.AckId]))
+				fs.Cancel()
+			}
+		}
+	}
 	done := make(chan error, 1)
 	// when the handler returns on its own the fake stream is cancelled, so a later
 	// Push does not wait for a reader that is gone
@@ -227,6 +243,9 @@ func (w *World) StreamSession(name string, maxMsgs int64, ackFrac, nackFrac floa
 	}
 	w.stat("stream_sessions", 1)
 	w.stat("stream_messages", int64(total))
+	if respin.Load() > 0 && live && !s.Wild {
+		w.violate("C04", "resent-inside-lease:stream-loop", "stream on %s#%d sent one ack id %d times within a single session in which no time passed (a message may be re-sent once, after its nack): it is handed out again inside its lease", name, s.Gen, respin.Load())
+	}
 }
 
 var _ = time.Now
